@@ -54,3 +54,38 @@ pub fn murmur3_of<T: std::hash::Hash>(seed: u64, value: T) -> (u64, u64) {
 pub fn seed_hash(seed: u64) -> u16 {
     crate::hash::compute_seed_hash(seed)
 }
+
+/// Snapshot of the internal state of an HLL sketch, as plain data.
+#[derive(Debug, Clone, PartialEq)]
+pub struct HllState {
+    /// log2 of the configured number of registers
+    pub lg_k: u8,
+    /// 0 = list, 1 = set, 2 = register array
+    pub mode: u8,
+    /// 4, 6 or 8
+    pub target_bits: u8,
+    /// list / set mode: log2 of the backing table size
+    pub lg_arr: u8,
+    /// list / set mode: the count the container believes it holds
+    pub coupon_count: usize,
+    /// list / set mode: the raw backing table including empty (0) cells
+    pub coupon_table: Vec<u32>,
+    /// array mode: logical register values (aux exceptions resolved)
+    pub registers: Vec<u8>,
+    /// array mode, Hll4: raw nibbles; empty otherwise
+    pub raw_nibbles: Vec<u8>,
+    /// array mode, Hll4: (slot, value) exception pairs
+    pub aux: Vec<(u32, u8)>,
+    /// array mode: cur_min (0 for Hll6/Hll8)
+    pub cur_min: u8,
+    /// array mode: number of registers at cur_min (num_zeros for Hll6/Hll8)
+    pub num_at_cur_min: u32,
+    /// array mode: HIP accumulator
+    pub hip_accum: f64,
+    /// array mode: KxQ0
+    pub kxq0: f64,
+    /// array mode: KxQ1
+    pub kxq1: f64,
+    /// array mode: out-of-order flag
+    pub out_of_order: bool,
+}
